@@ -202,6 +202,47 @@ def rand_history(rng, i):
     return h, mode
 
 
+def corner_history(rng):
+    m = rng.randint(3, 5)
+    alts = rng.sample(range(1, 9), m)
+    complete = [rand_vote(rng, alts, rng.choice([0.0, 0.0, 0.5]), 0.0) for _ in range(rng.randint(1, 4))]
+    while True:
+        w = rand_vote(rng, alts, 0.7, 1.0)
+        if not is_strict_vote(w) and sum(len(c) for c in w) < m:
+            break
+    strict_c = [v for v in complete if is_strict_vote(v)]
+    weak_c = [v for v in complete if not is_strict_vote(v)]
+    rng.shuffle(strict_c)
+    rng.shuffle(weak_c)
+    seq = strict_c + [w] + weak_c            # the first weak order is the incomplete one
+    if rng.random() < 0.3:
+        rng.shuffle(seq)
+    seq = seq + [rng.choice(seq) for _ in range(rng.randint(0, 3))]
+    h = []
+    i = 0
+    while i < len(seq):
+        b = rng.randint(1, 3)
+        batch = seq[i:i + b]
+        i += b
+        if len(batch) == 1 and is_strict_vote(batch[0]) and rng.random() < 0.5:
+            h.append([K_ORDER, [c[0] for c in batch[0]]])
+        elif all(is_strict_vote(v) for v in batch) and len(set(len(v) for v in batch)) == 1 and rng.random() < 0.5:
+            h.append([K_ARRAY, [[c[0] for c in v] for v in batch]])
+        elif rng.random() < 0.5:
+            h.append([K_LIST, batch])
+        else:
+            vm = []
+            for o in batch:
+                for e in vm:
+                    if e[0] == o:
+                        e[1] += 1
+                        break
+                else:
+                    vm.append([o, 1])
+            h.append([K_VM, vm])
+    return h
+
+
 def rand_perm_of(rng, o):
     a = [c[0] for c in o]
     rng.shuffle(a)
@@ -227,6 +268,28 @@ def generate(tier, seed):
     for i in range(nrand):
         h, mode = rand_history(rng, i)
         out.append(mk_case(h, rng.randrange(10 ** 9), rnd=1, mode=mode))
+    # corner: the first weak (tied) order of `orders` is incomplete and is the only incomplete order (-> toi),
+    # entered in every rotation / through several entry points; and histories made of vote maps only
+    for i in range(120 if tier == "quick" else 1500):
+        out.append(mk_case(corner_history(rng), rng.randrange(10 ** 9), rnd=1, mode="corner-first-weak-incomplete"))
+    for i in range(60 if tier == "quick" else 600):
+        h, _ = rand_history(rng, i)
+        vs = votes_of(h)
+        hh = []
+        j = 0
+        while j < len(vs):
+            b = rng.randint(1, 3)
+            vm = []
+            for o in vs[j:j + b]:
+                for e in vm:
+                    if e[0] == o:
+                        e[1] += 1
+                        break
+                else:
+                    vm.append([o, 1])
+            hh.append([K_VM, vm])
+            j += b
+        out.append(mk_case(hh, rng.randrange(10 ** 9), rnd=1, mode="vote-maps-only"))
     # populate_* (the sampler's vote map is captured on the implementation side)
     npop = 60 if tier == "quick" else 600
     for i in range(npop):
@@ -294,6 +357,8 @@ def observe(inst, raised):
         1 if (errs is not None and len([e for e in errs if "0 appears" not in e]) == 0) else 0,
         1 if (errs is not None and len([e for e in errs if "0 appears" in e]) == 0) else 0,
         1 if raised else 0,
+        list(inst.preferences),
+        DT.get(inst.data_type, 9),
     ])
 
 
@@ -421,10 +486,12 @@ def oracle_requests(c, r):
 NAMES = ["multiplicity", "orders", "num_voters", "num_unique_orders", "num_alternatives", "alternatives_name",
          "data_type", "infer_type()", "full_profile()", "vote_map()", "flatten_strict()", "is_strict", "is_complete",
          "largest_ballot", "smallest_ballot", "max_num_indif", "min_num_indif", "largest_indif", "smallest_indif",
-         "sanity.orders clean", "sanity: no alternative 0", "raised"]
-AS_SET = {0, 1, 5, 8, 9, 10}        # compared up to order (multisets): insertion order is not named by the property
+         "sanity.orders clean", "sanity: no alternative 0", "raised", "preferences",
+         "data_type vs the type of the multiset of votes by definition (C02_type)"]
+AS_SET = {0, 1, 5, 8, 9, 10, 22}        # compared up to order (multisets): insertion order is not named by the property
 STATS = set(range(11, 19))          # basic.py statistics: only on states holding at least one order
 NOT_FRESH = {6, 19}                 # data_type / sanity: only after the first operation
+SPEC_TYPE = 23                      # model: spec_type(votes so far); implementation: data_type. Only with >= 1 vote
 
 
 def canon(i, x):
@@ -440,6 +507,8 @@ def compare_obs(step, a, b, who):
         if i in STATS and not has_orders:
             continue
         if i in NOT_FRESH and step == 0:
+            continue
+        if i == SPEC_TYPE and not has_orders:
             continue
         if canon(i, a[i]) != canon(i, b[i]):
             return "%s after operation %d: %s: implementation %r, model %r" % (who, step, NAMES[i], a[i], b[i])
@@ -491,6 +560,28 @@ def stats(c, r, m):
         out.append("mode=" + c["tags"]["mode"])
     if c["tags"].get("exh"):
         out.append("exhaustive len=%d" % c["tags"]["exh"])
+    # corners asked for by the coordinator (measured, see the evidence)
+    orders = final[1]
+    if orders:
+        na = final[4]
+        inc = [sum(len(c) for c in o) != na for o in orders]
+        weak = [any(len(c) != 1 for c in o) for o in orders]
+        if any(weak):
+            fw = weak.index(True)
+            if inc[fw] and sum(inc) == 1:
+                out.append("corner: first weak order is incomplete and the only incomplete order (toi expected)")
+    if h and all(op[0] == K_VM for op in h):
+        out.append("corner: instance populated through vote maps only" +
+                   (" (populate_*)" if any(op[0] == K_POP for op in c["payload"][0]) else ""))
+    seen = set()
+    bump = 0
+    for op in h:
+        ovs = [proto.enc(v) for v in votes_of_op(op)]
+        if ovs and all(v in seen for v in ovs):
+            bump += 1
+        seen.update(ovs)
+    if bump:
+        out.append("corner: some operation only raises multiplicities of existing orders")
     if r.get("bare_raised"):
         out.append("append_order_list with bare alternatives raised TypeError (history truncated there)")
     for op in c["payload"][0]:
